@@ -30,7 +30,9 @@ import sys
 from . import lib
 
 RULE = ("entries: 3 real cache entries (different sources / environments); every truncation offset of each, plus stale "
-        "checksum, 5 foreign magics, 12 corrupt pickles, empty input; each through Bucket.bytecode_from_string and a "
+        "checksum, 5 hand-made foreign magics, entries WRITTEN BY THE CODE UNDER TEST under 9 simulated other interpreters (child "
+        "process with sys.version_info / hexversion replaced before jinja2 is imported; control: the same under this version must "
+        "hit), 12 corrupt pickles, corrupt marshal parts, bit flips, empty input; each through Bucket.bytecode_from_string and a "
         "subset through FileSystemBytecodeCache files and a truncating memcached client.  crash points: before / after "
         "temp-file creation, after each write, before / after os.replace, as kill and as OSError, with and without an "
         "older entry at the real name.  histories: all sequences up to length L over {load by env0, load by env1, modify "
@@ -614,6 +616,88 @@ def run_memcached(ctx, jinja2, only=None):
             ctx.validated()
 
 
+# ------------------------------------------------------------------------------------------- entries of another interpreter
+FOREIGN_CHILD = r'''
+import sys
+# everything jinja2 needs from the standard library is imported under the real interpreter first
+import os, re, typing, weakref, pickle, marshal, tempfile, functools, collections, itertools, json, inspect, enum, string, textwrap
+import random, logging, importlib.util, zipimport, hashlib, types, numbers, operator, keyword, ast, math, errno, fnmatch, stat, io
+import markupsafe
+maj, mnr, cachedir, real_src, marker = int(sys.argv[1]), int(sys.argv[2]), sys.argv[3], sys.argv[4], sys.argv[5]
+class VI(tuple):
+    major = property(lambda s: s[0]); minor = property(lambda s: s[1]); micro = property(lambda s: s[2])
+    releaselevel = property(lambda s: s[3]); serial = property(lambda s: s[4])
+sys.version_info = VI((maj, mnr, 0, "final", 0))
+sys.hexversion = (maj << 24) | (mnr << 16) | 0xF0
+import jinja2
+from jinja2.bccache import FileSystemBytecodeCache, Bucket, bc_magic
+env = jinja2.Environment()
+bcc = FileSystemBytecodeCache(cachedir)
+b = Bucket(env, bcc.get_cache_key("t", None), bcc.get_source_checksum(real_src))
+b.code = env.compile(marker, "t", None)          # what this "other interpreter" cached for the same name and source
+bcc.dump_bytecode(b)
+print("MAGIC " + bc_magic.hex())
+'''
+
+
+def run_foreign(ctx, jinja2, table, only=None):
+    """entries written by THE CODE UNDER TEST running under a simulated other interpreter (sys.version_info /
+    sys.hexversion replaced in a child before jinja2 is imported) must be misses here; the same simulation with this
+    interpreter's version must be a hit (the channel works)"""
+    from jinja2.bccache import FileSystemBytecodeCache, bc_magic
+    real_src, marker = "current source {{ x }}", "BYTECODE-OF-OTHER-INTERPRETER"
+    here = (sys.version_info[0], sys.version_info[1])
+    versions = [here, (3, here[1] - 1), (3, here[1] + 1), (3, here[1] + 2), (3, 0), (3, 255 if here[1] != 255 else 254),
+                (2, here[1]), (4, here[1]), (4, 0), (2, 7)]
+    d = os.path.join(ctx.bdir, "foreign")
+    for (maj, mnr) in versions:
+        if only is not None and only.get("version") != [maj, mnr]:
+            continue
+        shutil.rmtree(d, ignore_errors=True)
+        os.makedirs(d)
+        p = subprocess.run([lib.PY, "-c", FOREIGN_CHILD, str(maj), str(mnr), d, real_src, marker], capture_output=True, text=True,
+                           env=lib.IMPL_ENV, timeout=120)
+        mg = [l for l in p.stdout.splitlines() if l.startswith("MAGIC ")]
+        case = {"kind": "foreign", "version": [maj, mnr]}
+        ctx.case(sample=dict(case, magic=mg[0][6:] if mg else None) if (maj, mnr) == (3, here[1] + 1) else None,
+                 key=("foreign", maj, mnr))
+        ctx.count("foreign_interpreter_same" if (maj, mnr) == here else "foreign_interpreter_other")
+        if p.returncode != 0 or not mg:
+            ctx.count("foreign_interpreter_simulation_failed")
+            ctx.notes.append(f"could not simulate Python {maj}.{mnr}: {p.stderr.strip().splitlines()[-1:]}")
+            if (maj, mnr) == here:
+                ctx.broken.append("foreign-interpreter channel: the control run under this interpreter's own version failed")
+            continue
+        their = bytes.fromhex(mg[0][6:])
+        env = jinja2.Environment(loader=jinja2.DictLoader({"t": real_src}), bytecode_cache=FileSystemBytecodeCache(d), cache_size=0)
+        try:
+            out = env.get_template("t").render(x=1)
+        except Exception as e:  # noqa
+            out = "X:" + type(e).__name__
+        impl = "H9" if out == marker else "M" if out == "current source 1" else out
+        mo = None
+        if table:
+            toy = list(their) + [200, 5, 201, 210, 9, 211]
+            mo = ctx.driver("bc", [f"L {table[0]} {table[1]} 5 {ints(bc_magic)} {ints(toy)}"])[0]
+        if only is not None:
+            print("their magic:", their.hex(), "\nour magic  :", bc_magic.hex(), "\nmodel:", mo, "\nimpl :", impl, repr(out))
+        if (maj, mnr) == here:
+            if impl != "H9":
+                ctx.broken.append(f"foreign-interpreter channel: an entry written under this interpreter's own version was not used ({out!r})")
+            else:
+                ctx.validated()
+            continue
+        if impl != "M":
+            ctx.reject(dict(case, rendered=out), f"an entry written by this jinja under Python {maj}.{mnr} was "
+                       f"{'used' if impl == 'H9' else 'not tolerated'} under Python {here[0]}.{here[1]}: rendered {out!r}",
+                       "C27:foreign-interpreter-entry-accepted")
+        elif mo is not None and mo != impl:
+            ctx.model_mismatch("K-rt Bucket.load_bytecode (foreign interpreter)", case, mo, impl, None)
+        else:
+            ctx.validated()
+    shutil.rmtree(d, ignore_errors=True)
+
+
 # ------------------------------------------------------------------------------------------- names / sources outside UTF-8
 UNI = [("t", "a\ud800b {{ x }}"), ("n\ud800", "plain {{ x }}"), ("t\udfff", "\udc80{{ x }}"), ("é😀", "é😀\x00{{ x }}"),
        ("t", "{{ '\ud800' }}{{ x }}"), ("dir/\ud83d", "half a pair \ud83d {{ x }}")]
@@ -692,7 +776,15 @@ def run(ctx):
     except bc_translate.Untranslatable as e:
         ctx.obligations += 8
         ctx.broken.append(f"translator gen/bc_translate.py: bccache source left the translatable vocabulary: {e}")
+    # T1: the construction of bc_magic, re-evaluated from the current source under simulated interpreters
+    import bc_magic as bc_magic_gen
+    try:
+        ok, out = ctx.coq_obligation("Gen_bc_magic", bc_magic_gen.emit(lib.SRC), n_obligations=2)
+    except bc_magic_gen.Untranslatable as e:
+        ctx.obligations += 2
+        ctx.broken.append(f"translator gen/bc_magic.py: {e}")
     run_load(ctx, jinja2, table)
+    run_foreign(ctx, jinja2, table)
     run_flips(ctx, jinja2, table)
     run_crash(ctx, jinja2)
     run_shared(ctx, jinja2)
@@ -720,6 +812,8 @@ def replay(ctx, data):
         run_memcached(ctx, jinja2, only=case)
     elif kind == "unicode":
         run_unicode(ctx, jinja2, only=case)
+    elif kind == "foreign":
+        run_foreign(ctx, jinja2, regen_table(ctx), only=case)
     else:
         print("replay: unknown case kind", kind)
     if ctx.evaluations == 0:
